@@ -66,7 +66,7 @@ def run(ck):
             if truth == "sersic":
                 p["n"] = rng.uniform(0.8, 4)
         cases.append({"mode": "image", "N": N, "profile": T, "truth_profile": truth, "params": p, "snr": rng.choice([5, 30, 100, 1e4]) if i else 100,
-                      "mask": rng.random() < 0.4, "sky": rng.choice(["none", "flat", "tilted-plane"]), "negative": (i % 5 == 4), "ndraw": 60 if quick else 1000,
+                      "mask": (rng.random() < 0.4) if i else True, "sky": rng.choice(["none", "flat", "tilted-plane"]), "negative": (i % 5 == 4), "ndraw": 60 if quick else 1000,
                       "seed": rng.randint(0, 10**6)})
     ck.log("implementation: %d cases (table / multi / image)" % len(cases))
     import concurrent.futures as cf
